@@ -27,13 +27,35 @@ theorem rewrite_follow (r r' : Req) (hp : Hop) (e : rewrite r hp = .follow r') :
   · rename_i hs
     split at e
     · cases e
-    · rename_i h0 hc
-      simp only at e
+    · split at e
+      · cases e
+      · rename_i h0 hc
+        simp only at e
+        split at e
+        · cases e
+        · split at e
+          · cases e
+          · rename_i h2 hd
+            cases e
+            exact ⟨by simpa using hs, h0, h2, hc, hd, rfl⟩
+
+/-- a hop is only followed when the new URL could be parsed: `urljoin`/`urlsplit` did not raise, and on the
+    cross-origin userinfo path neither did `.port` (otherwise `finish()` raises with `final_callback` still set) -/
+theorem rewrite_follow_parses (r r' : Req) (hp : Hop) (e : rewrite r hp = .follow r') :
+    hp.joinRaises = false ∧ (crossOrigin hp && hp.newNetloc.contains 64 && hp.portRaises) = false := by
+  unfold rewrite at e
+  split at e
+  · cases e
+  · split at e
+    · cases e
+    · rename_i hj
       split at e
       · cases e
-      · rename_i h2 hd
-        cases e
-        exact ⟨by simpa using hs, h0, h2, hc, hd, rfl⟩
+      · simp only at e
+        split at e
+        · cases e
+        · rename_i hpz
+          exact ⟨by simpa using hj, by simpa using hpz⟩
 
 /-- a followed hop consumes one unit of `max_redirects`, and there was one to consume -/
 theorem follow_decrements (r r' : Req) (hp : Hop) (e : rewrite r hp = .follow r') :
@@ -143,6 +165,67 @@ theorem cross_origin_strips (r r' : Req) (hp : Hop) (e : rewrite r hp = .follow 
     · have := c3 nAuthorization (Or.inl rfl); simpa [contains, hn] using this
     · have := c3 nCookie (Or.inr rfl); simpa [contains, hn] using this
   exact ⟨hcn, getList_of_not_contains _ _ hcn⟩
+
+/-- `run()`'s header edits add no credential header when the URL has no userinfo and `auth_username` is unset:
+    whatever spelling `m` of Authorization / Cookie is absent from the request's headers stays absent from the
+    headers that are written to the wire -/
+theorem prepare_no_credentials (r : Req) (p : Prep) (m : Str) (hu : p.urlCreds = none) (ha : r.authUser = false)
+    (hm : normalize m = normalize nAuthorization ∨ normalize m = normalize nCookie)
+    (c : contains r.headers m = false) : contains (prepare r p) m = false := by
+  have ne : ∀ x, (x = nConnection ∨ x = nHost ∨ x = nUserAgent ∨ x = nContentLength ∨ x = nContentType ∨
+      x = nAcceptEncoding) → normalize x ≠ normalize m := by
+    intro x hx e
+    rcases hm with hm | hm <;> rw [hm] at e <;>
+      rcases hx with rfl | rfl | rfl | rfl | rfl | rfl <;> revert e <;> decide
+  unfold prepare
+  simp only [hu, ha, Bool.false_eq_true, if_false]
+  have s1 : contains (if contains r.headers nConnection = true then r.headers
+      else setItem r.headers nConnection (str "close")) m = false := by
+    split
+    · exact c
+    · exact contains_setItem_other _ _ _ _ (ne _ (by simp)) c
+  generalize (if contains r.headers nConnection = true then r.headers
+      else setItem r.headers nConnection (str "close")) = h1 at s1 ⊢
+  have s2 : contains (if contains h1 nHost = true then h1 else setItem h1 nHost p.host) m = false := by
+    split
+    · exact s1
+    · exact contains_setItem_other _ _ _ _ (ne _ (by simp)) s1
+  generalize (if contains h1 nHost = true then h1 else setItem h1 nHost p.host) = h2 at s2 ⊢
+  have s3 : contains (if contains h2 nUserAgent = true then h2 else setItem h2 nUserAgent p.userAgent) m = false := by
+    split
+    · exact s2
+    · exact contains_setItem_other _ _ _ _ (ne _ (by simp)) s2
+  generalize (if contains h2 nUserAgent = true then h2 else setItem h2 nUserAgent p.userAgent) = h3 at s3 ⊢
+  have s4 : contains (if r.hasBody = true then setItem h3 nContentLength p.contentLength else h3) m = false := by
+    split
+    · exact contains_setItem_other _ _ _ _ (ne _ (by simp)) s3
+    · exact s3
+  generalize (if r.hasBody = true then setItem h3 nContentLength p.contentLength else h3) = h4 at s4 ⊢
+  have s5 : contains (if (decide (r.method = mPOST) && !contains h4 nContentType) = true then
+      setItem h4 nContentType (str "application/x-www-form-urlencoded") else h4) m = false := by
+    split
+    · exact contains_setItem_other _ _ _ _ (ne _ (by simp)) s4
+    · exact s4
+  generalize (if (decide (r.method = mPOST) && !contains h4 nContentType) = true then
+      setItem h4 nContentType (str "application/x-www-form-urlencoded") else h4) = h5 at s5 ⊢
+  split
+  · exact contains_setItem_other _ _ _ _ (ne _ (by simp)) s5
+  · exact s5
+
+/-- **cross_origin_wire_clean** (the wire-level half of the stripping clause): the header block `run()` writes for a
+    cross-origin redirect target — `prepare r' p`, i.e. after Host / Authorization-from-credentials / User-Agent /
+    Content-Length / … have been (re-)added — contains no `Authorization` and no `Cookie` under any spelling,
+    provided the new URL carries no userinfo (`p.urlCreds = none`: what `urlsplit(new_request.url).username is None`
+    means; that the rewritten URL `host[:port]` has no userinfo is `urllib.parse`'s contract, checked on the wire by
+    the oracle on every run).  `auth_username` cannot re-add it: `rewrite` cleared it. -/
+theorem cross_origin_wire_clean (r r' : Req) (hp : Hop) (p : Prep) (e : rewrite r hp = .follow r')
+    (hx : crossOrigin hp = true) (hu : p.urlCreds = none) :
+    ∀ n, (normalize n = normalize nAuthorization ∨ normalize n = normalize nCookie) →
+      contains (prepare r' p) n = false ∧ getList (prepare r' p) n = [] := by
+  obtain ⟨ha, _, hh⟩ := cross_origin_strips r r' hp e hx
+  intro n hn
+  have c := prepare_no_credentials r' p n hu ha hn (hh n hn).1
+  exact ⟨c, getList_of_not_contains _ _ c⟩
 
 /-- the code's origin test (scheme and netloc strings) is at least as strict as "scheme, host or port differ",
     whatever function extracts host and port from a netloc -/
@@ -307,5 +390,30 @@ example : ∃ r', rewrite exReq exHop = .follow r' ∧ crossOrigin exHop = true 
   refine ⟨_, rfl, ?_⟩
   decide
 
-end TornadoModel.C09
+/-- non-vacuity for `cross_origin_wire_clean`, and why its hypothesis is needed (the reviewer's witness): for the
+    followed cross-origin hop above the wire headers are clean when the new URL has no userinfo — and `prepare` *does*
+    write an Authorization header when it has. -/
+def exPrep (c : Option Str) : Prep :=
+  { host := str "b.test", urlCreds := c, authValue := str "", userAgent := str "t", contentLength := str "0" }
+example : ∃ r', rewrite exReq exHop = .follow r' ∧ contains (prepare r' (exPrep none)) nAuthorization = false ∧
+    contains (prepare r' (exPrep none)) nCookie = false ∧
+    contains (prepare r' (exPrep (some (str "Basic dTpw")))) nAuthorization = true := by
+  refine ⟨_, rfl, ?_⟩
+  decide
 
+/-- an unparsable `Location` (`urljoin` raises) or a bad port behind userinfo on a cross-origin hop: no request is
+    issued, the exception escapes `finish()` (`Out.crash`) -/
+example : rewrite exReq { exHop with joinRaises := true } = .crash ∧
+    rewrite exReq { exHop with portRaises := true } = .crash ∧
+    chain exReq [(exPrep none, { exHop with joinRaises := true })] = [] := by decide
+
+/-- non-vacuity for the post-connect failures: max_clients = 1; fetch 0 is connected and its stream is then closed by
+    the peer, which releases the slot to fetch 1; fetch 1 is redirected to key 2, whose response has an unparsable
+    Location (`drop 2 crash`): every fetch completes exactly once, nothing is left. -/
+def exDrop : List Op :=
+  [.fetch 0 50, .fetch 1 40, .connOk 0, .drop 0 .closed, .connOk 1, .redirect 1 2, .connOk 2, .drop 2 .crash, .drop 2 .error]
+example : (run (init 1) exDrop).2 =
+    [[.start 0], [], [], [.start 1, .complete 0 .closed], [], [.start 2], [], [.complete 1 .crash], []] ∧
+    (run (init 1) exDrop).1.active = [] ∧ (submitted exDrop).Nodup ∧ fetchedOf exDrop = [0, 1] := by decide
+
+end TornadoModel.C09
